@@ -68,7 +68,7 @@ fn eval_q(f: &Aff, x: &[f64]) -> Vec<Q> {
 
 pub fn run_case(ctx: &Ctx, case: u64, ev: &mut Ev) {
     let mut rng = Rng::derive(ctx.seed, "C16", case);
-    rng.big = ctx.tier == crate::Tier::Thorough && rng.chance(0.2);
+    rng.big = crate::draw_big(ctx, &mut rng);
     let rg = regime(&mut rng);
     let dmax = if rng.big { 9 } else { 5 };
     let n = 1 + rng.below(dmax);
